@@ -37,7 +37,7 @@ the cancelled want in every queue it is in), read through `Req/Pool/CancelPool.l
 -/
 namespace Req.Props.C08Pool
 open Req.Pool.H1Pool Req.Pool.CancelPool Req.Lemmas.CancelPool
-open Req.Lemmas.C09Pool Req.Lemmas.C09PoolExcl Req.Lemmas.C09PoolCount
+open Req.Lemmas.C09Pool Req.Lemmas.C09PoolExcl Req.Lemmas.C09PoolCount Req.Lemmas.C09PoolLru
 
 theorem run_snoc (cfg : Cfg) (s : St) (ops : List Op) (op : Op) :
     run cfg s (ops ++ [op]) = (step cfg (run cfg s ops) op).1 := by
@@ -175,6 +175,61 @@ def putOrClose (cfg : Cfg) (s : St) (c : Conn) : St :=
   | .put .ok => (step cfg s (.putT c)).1
   | .put _ => (step cfg (step cfg s (.putT c)).1 (.closeT c)).1
   | _ => (step cfg s (.putT c)).1
+
+/-- **late_conn_not_leaked** — ∀ interleavings: a connection some pool routine holds in its hands
+(`transit`: delivered by a dial after its want was cancelled, taken back from a cancelled want,
+or taken out of the idle list by `CloseIdleConnections`) is, after `putOrCloseIdleConn`, in nobody's
+hands any more and is handed to a waiting request, listed idle, or closed. -/
+theorem late_conn_not_leaked (cfg : Cfg) (ops : List Op) (c : Conn) (k : Key)
+    (hk : (run cfg {} ops).ckey c = some k) (ht : c ∈ (run cfg {} ops).transit) :
+    c ∉ (putOrClose cfg (run cfg {} ops) c).transit ∧
+    ((∃ w, (putOrClose cfg (run cfg {} ops) c).wst w = .gotConn c) ∨
+      c ∈ (putOrClose cfg (run cfg {} ops) c).idle k ∨
+      (putOrClose cfg (run cfg {} ops) c).closed c = true) := by
+  obtain ⟨he, hl⟩ := Excl_LruAll_run cfg {} ops Excl_init (LruAll_init cfg)
+  generalize run cfg {} ops = s at *
+  have hnot : c ∉ s.transit.erase c := fun h => (List.Nodup.mem_erase_iff he.transitNodup).mp h |>.1 rfl
+  -- the connection is not in the LRU: LRU entries are idle-listed (hence not in transit) or closed
+  have hstep : step cfg s (.putT c) =
+      (if (tryPut cfg { s with transit := s.transit.erase c } c k).2 = .ok
+        then ((tryPut cfg { s with transit := s.transit.erase c } c k).1,
+              Out.put (tryPut cfg { s with transit := s.transit.erase c } c k).2)
+        else ({ (tryPut cfg { s with transit := s.transit.erase c } c k).1 with
+                  transit := c :: (tryPut cfg { s with transit := s.transit.erase c } c k).1.transit },
+              Out.put (tryPut cfg { s with transit := s.transit.erase c } c k).2)) := by
+    simp [step, hk, ht]
+  unfold putOrClose
+  rw [hstep]
+  by_cases hok : (tryPut cfg { s with transit := s.transit.erase c } c k).2 = .ok
+  · simp only [if_pos hok, hok]
+    refine ⟨by simpa using hnot, ?_⟩
+    rcases tryPut_ok_places cfg { s with transit := s.transit.erase c } c k hk hok with h | h | h | h
+    · exact Or.inl h
+    · exact Or.inr (Or.inl h)
+    · exact Or.inr (Or.inr h)
+    · -- unreachable: c ∈ lru
+      exfalso
+      have hcl : s.closed c = false := by
+        cases hc : s.closed c with
+        | false => rfl
+        | true =>
+          have : (tryPut cfg { s with transit := s.transit.erase c } c k).2 ≠ .ok := by
+            unfold tryPut; split
+            · simp
+            · simp [hc]
+          exact absurd hok this
+      rcases hl.1.lruIdleOrClosed c h with ⟨k', hk'⟩ | hc
+      · exact he.idleNotTransit k' c hk' ht
+      · rw [hcl] at hc; cases hc
+  · simp only [if_neg hok]
+    have hne : (tryPut cfg { s with transit := s.transit.erase c } c k).2 ≠ .ok := hok
+    cases hp : (tryPut cfg { s with transit := s.transit.erase c } c k).2 with
+    | ok => exact absurd hp hne
+    | keepAlivesDisabled | broken | closeIdle | tooManyIdleHost =>
+      simp only [step, List.contains_cons, beq_self_eq_true, Bool.true_or, Bool.not_true, Bool.false_eq_true,
+        if_false, List.erase_cons_head]
+      refine ⟨by simpa using hnot, Or.inr (Or.inr ?_)⟩
+      exact (closeConn_closed cfg _ c c).mpr (Or.inr ⟨rfl, by simp [hk]⟩)
 
 /-- **cancel_is_lazy** -/
 theorem cancel_is_lazy (cfg : Cfg) (s : St) (w : Want) (k : Key) (hk : s.wkey w = some k)
